@@ -196,6 +196,8 @@ type Exec struct {
 	work     []*State
 
 	curResults []resTerm // handles on the values being returned (set while postconditions are checked)
+	remap         *loopRemap
+	remapDone     bool
 	mentions      map[string]bool
 	callsiteHit   map[string]bool // callees with `callsite requires` clauses that were actually called
 	ranToEnd      bool
